@@ -142,7 +142,7 @@ def run(ctx):
             judge_text(ctx, im, text, kind, detail)
     ctx.sample(dict(layer="single", mutation=kind, text=text[:300]))
     # random multi-mutations
-    n = ctx.n(3000, 400000)
+    n = ctx.n(6000, 1200000)
     pg = ProgGen(rnd, Profile(max_depth=2, max_arms=3, pred_depth=2))
     prev = None
     for i in range(n):
